@@ -35,6 +35,32 @@ def fixedDecode (f : Rat) (k : Int) : Rat := (k : Rat) / f
 `iinfo(int32).max`, otherwise the array is stored as plain bytes. -/
 def fitsFixed (f x : Rat) : Bool := decide (-(2147483647 : Rat) < x * f ∧ x * f < 2147483647)
 
+/-! ## `_get_decimal_places` (compress.py, after the fix) -/
+
+def absQ (x : Rat) : Rat := if x < 0 then -x else x
+
+/-- `10 ** d` for any integer `d` as an exact rational. -/
+def pow10 (d : Int) : Rat :=
+  if 0 ≤ d then ((10 ^ d.toNat : Nat) : Rat) else 1 / ((10 ^ (-d).toNat : Nat) : Rat)
+
+/-- `np.round(x, d)`: round half to even at `d` decimals. -/
+def roundDec (d : Int) (x : Rat) : Rat := (roundHalfEven (x * pow10 d) : Rat) / pow10 d
+
+def maxAbs : List Rat → Rat
+  | [] => 0
+  | x :: xs => let m := maxAbs xs; if m < absQ x then absQ x else m
+
+/-- The loop of `_get_decimal_places` over the non-zero finite values `xs`, starting at `d`:
+give up (`none`) as soon as `max|x| · 10^d` no longer fits int32, return the first `d` at which every
+value is reproduced within the relative tolerance.  `fuel` bounds the search (the real loop is
+bounded by the overflow test). -/
+def decimalsFrom : Nat → Int → List Rat → Rat → Option Int
+  | 0, _, _, _ => none
+  | fuel + 1, d, xs, tol =>
+    if ¬ (maxAbs xs * pow10 d < 2147483647) then none
+    else if xs.all (fun x => decide (absQ (roundDec d x - x) < tol * absQ x)) then some d
+    else decimalsFrom fuel (d + 1) xs tol
+
 /-! ## Interval quantisation -/
 
 /-- `np.searchsorted(np.linspace(min, max, n), x, side="left")` in exact arithmetic: the
